@@ -12,6 +12,15 @@
      Calibration               fitting_datatree.py fitness        except Exception as exc: add_note(fitting); log; raise
                                archipelago_datatree.py            initial population in _build, then evolve(); wait_check()
 
+   Round 2: the public entry points around the running modes (pyxel.run(file) with its try/finally,
+   the `pyxel run` command, the deprecated pyxel.exposure_mode/observation_mode/calibration_mode, the
+   methods of Exposure/Observation/Calibration) and EVERY construct that can drop an exception on
+   those paths - an `except` handler that does not re-raise, a `finally` block that is left by
+   return/break/continue, a context manager whose __exit__ suppresses - are modelled by `shape`,
+   `through` and `through_all` below; exception classes that are not `Exception` subclasses
+   (KeyboardInterrupt, SystemExit, a custom BaseException) pass the `except Exception` handlers
+   without a note, exactly as in the code.
+
    Results live in the monad  res A := Ok A | Raise exn ; every driver also returns the list of model
    calls it made (the probes' call log).  What a model function does is external: it is the
    `behaviour` argument (run id, step, model key) -> does this call raise, and what.  *)
@@ -22,13 +31,24 @@ Open Scope string_scope.
 (* ------------------------------------------------------------------------------------------ *)
 (* exceptions *)
 
-Inductive ecls := ValueError | KeyError | ZeroDivisionError | RuntimeError | TypeError | ProbeError.
+Inductive ecls := ValueError | KeyError | ZeroDivisionError | RuntimeError | TypeError | ProbeError
+                | StopIteration | FloatingPointError | OSError
+                | KeyboardInterrupt | SystemExit | BaseProbeError.
 
 Definition cls_name (c : ecls) : string :=
   match c with
   | ValueError => "ValueError" | KeyError => "KeyError" | ZeroDivisionError => "ZeroDivisionError"
   | RuntimeError => "RuntimeError" | TypeError => "TypeError" | ProbeError => "ProbeError"
+  | StopIteration => "StopIteration" | FloatingPointError => "FloatingPointError" | OSError => "OSError"
+  | KeyboardInterrupt => "KeyboardInterrupt" | SystemExit => "SystemExit" | BaseProbeError => "BaseProbeError"
   end.
+
+(* issubclass(c, Exception): what `except Exception` catches.  KeyboardInterrupt, SystemExit and the
+   probes' BaseProbeError derive from BaseException only. *)
+Definition is_exception (c : ecls) : bool :=
+  match c with KeyboardInterrupt | SystemExit | BaseProbeError => false | _ => true end.
+
+Definition is_stop_iteration (c : ecls) : bool := match c with StopIteration => true | _ => false end.
 
 Record exn := mk_exn { cls : ecls; msg : string; notes : list string }.
 
@@ -56,6 +76,19 @@ Definition add_note (e : exn) (n : string) : exn :=
   {| cls := cls e; msg := msg e; notes := (notes e ++ [n])%list |}.
 Definition add_notes (e : exn) (ns : list string) : exn :=
   {| cls := cls e; msg := msg e; notes := (notes e ++ ns)%list |}.
+
+(* PEP 479: a StopIteration that escapes from the body of a generator is replaced by
+   RuntimeError("generator raised StopIteration") (the original becomes its __cause__).  The islands of a
+   calibration are created while a tqdm iterator - a generator - is being consumed. *)
+Definition pep479 (e : exn) : exn :=
+  if is_stop_iteration (cls e)
+  then {| cls := RuntimeError; msg := "generator raised StopIteration"; notes := [] |}
+  else e.
+
+(* `except Exception as exc: exc.add_note(..)...; raise` - the three note-adding handlers of pyxel all
+   have this form: an exception that is not an Exception subclass is not caught, hence not annotated *)
+Definition annotate (e : exn) (ns : list string) : exn :=
+  if is_exception (cls e) then add_notes e ns else e.
 
 (* ------------------------------------------------------------------------------------------ *)
 (* pipelines, runs, call log *)
@@ -104,7 +137,7 @@ Section Drivers.
     | m :: ms' =>
         if m_enabled m then
           match call_model r s m with
-          | Raise e => (Raise (add_note e (note_text g (m_name m) (m_func m))), [mk_ev r s g m])
+          | Raise e => (Raise (annotate e [note_text g (m_name m) (m_func m)]), [mk_ev r s g m])
           | Ok _ => let '(o, tr) := group_run r s g ms' in (o, mk_ev r s g m :: tr)
           end
         else group_run r s g ms'
@@ -141,9 +174,25 @@ Section Drivers.
     | [] => (Ok [], [])
     | r :: rs =>
         match exposure (r_id r) pl nsteps with
-        | (Raise e, tr) => (Raise (add_notes e (obs_header :: map param_note (r_params r))), tr)
+        | (Raise e, tr) => (Raise (annotate e (obs_header :: map param_note (r_params r))), tr)
         | (Ok d, tr) =>
             let '(o, tr') := obs_seq pl nsteps rs in (map_res (cons (r_id r, d)) o, (tr ++ tr')%list)
+        end
+    end.
+
+  (* the deprecated pyxel.observation_mode, sequential (observation/deprecated.py _run_observation_deprecated):
+     one _apply_exposure_pipeline_* per run in a loop; no handler, hence no parameter notes.
+     (Unrepaired code: `list(map(f, runs))`, where a StopIteration raised by f ends the map silently;
+     repaired by fix-c09 to a list comprehension, which is what is modelled here.) *)
+  Fixpoint obs_seq_old (pl : list group) (nsteps : nat) (runs : list run)
+    : res (list (nat * list nat)) * list event :=
+    match runs with
+    | [] => (Ok [], [])
+    | r :: rs =>
+        match exposure (r_id r) pl nsteps with
+        | (Raise e, tr) => (Raise e, tr)
+        | (Ok d, tr) =>
+            let '(o, tr') := obs_seq_old pl nsteps rs in (map_res (cons (r_id r, d)) o, (tr ++ tr')%list)
         end
     end.
 
@@ -170,7 +219,7 @@ Section Drivers.
   (* Calibration: fitness of one candidate (identified by its evaluation number) *)
   Definition fitness (pl : list group) (nsteps : nat) (cand : nat) : res (list nat) :=
     match exposure cand pl nsteps with
-    | (Raise e, _) => Raise (add_note e fit_note)
+    | (Raise e, _) => Raise (annotate e [fit_note])
     | (Ok d, _) => Ok d
     end.
 
@@ -189,7 +238,7 @@ Section Drivers.
   Definition calib compute transport (pl : list group) (nsteps : nat)
              (init : list nat) (gens : list (list nat)) : res unit :=
     match compute (map (fitness pl nsteps) init) with
-    | Raise e => Raise e                       (* initial population: built in the caller's thread pool *)
+    | Raise e => Raise (pep479 e)              (* initial population: built in the caller's thread pool, inside `for island in tqdm(..)` *)
     | Ok _ => evolve compute transport pl nsteps gens
     end.
 
@@ -215,7 +264,7 @@ Section Drivers.
     | [] => (Ok tt, [])
     | ev :: rest =>
         match ev_fault ev with
-        | Some (c, p) => (Raise (add_note (raise_of c p) (note_of_event ev)), [ev])
+        | Some (c, p) => (Raise (annotate (raise_of c p) [note_of_event ev]), [ev])
         | None => let '(o, tr) := flat_exec rest in (o, ev :: tr)
         end
     end.
@@ -235,6 +284,95 @@ Section Drivers.
     end.
 End Drivers.
 
+(* ------------------------------------------------------------------------------------------ *)
+(* Exposure with debug=True: after every model call ModelGroup.run captures the detector
+   (detector.to_xarray() and the bookkeeping of the intermediate tree).  The capture is OUTSIDE the
+   try statement: if it fails - a model left a bucket in a state that cannot be read - the exception
+   propagates without a group/model note, and nothing runs after it.  `cap run step key = Some (class,
+   payload)` iff the capture after that call raises. *)
+Section Debug.
+  Variable beh cap : behaviour.
+
+  Definition call_dbg (r s : nat) (g : string) (m : model) : res unit :=
+    match call_model beh r s m with
+    | Raise e => Raise (annotate e [note_text g (m_name m) (m_func m)])
+    | Ok _ => match cap r s (m_key m) with
+              | Some (c, p) => Raise (raise_of c p)
+              | None => Ok tt
+              end
+    end.
+
+  Fixpoint group_run_dbg (r s : nat) (g : string) (ms : list model) : res unit * list event :=
+    match ms with
+    | [] => (Ok tt, [])
+    | m :: ms' =>
+        if m_enabled m then
+          match call_dbg r s g m with
+          | Raise e => (Raise e, [mk_ev r s g m])
+          | Ok _ => let '(o, tr) := group_run_dbg r s g ms' in (o, mk_ev r s g m :: tr)
+          end
+        else group_run_dbg r s g ms'
+    end.
+
+  Fixpoint processor_run_dbg (r s : nat) (gs : list group) : res unit * list event :=
+    match gs with
+    | [] => (Ok tt, [])
+    | g :: gs' =>
+        match group_run_dbg r s (g_name g) (g_models g) with
+        | (Raise e, tr) => (Raise e, tr)
+        | (Ok _, tr) => let '(o, tr') := processor_run_dbg r s gs' in (o, (tr ++ tr')%list)
+        end
+    end.
+
+  Fixpoint exposure_steps_dbg (r : nat) (pl : list group) (steps : list nat) : res (list nat) * list event :=
+    match steps with
+    | [] => (Ok [], [])
+    | s :: ss =>
+        match processor_run_dbg r s pl with
+        | (Raise e, tr) => (Raise e, tr)
+        | (Ok _, tr) => let '(o, tr') := exposure_steps_dbg r pl ss in (map_res (cons s) o, (tr ++ tr')%list)
+        end
+    end.
+
+  Definition exposure_dbg (r : nat) (pl : list group) (nsteps : nat) := exposure_steps_dbg r pl (seq 0 nsteps).
+
+  (* flat specification: what stops the run at a call - the model's exception (annotated) or, if the
+     model returned, the failure of the capture (as raised) *)
+  Definition ev_stop (ev : event) : option exn :=
+    match ev_fault beh ev with
+    | Some (c, p) => Some (annotate (raise_of c p) [note_of_event ev])
+    | None => match cap (ev_run ev) (ev_step ev) (ev_key ev) with
+              | Some (c, p) => Some (raise_of c p)
+              | None => None
+              end
+    end.
+
+  Fixpoint flat_exec_dbg (evs : list event) : res unit * list event :=
+    match evs with
+    | [] => (Ok tt, [])
+    | ev :: rest =>
+        match ev_stop ev with
+        | Some e => (Raise e, [ev])
+        | None => let '(o, tr) := flat_exec_dbg rest in (o, ev :: tr)
+        end
+    end.
+
+  Fixpoint first_stop (evs : list event) : option (list event * event * exn) :=
+    match evs with
+    | [] => None
+    | ev :: rest =>
+        match ev_stop ev with
+        | Some e => Some ([], ev, e)
+        | None => match first_stop rest with
+                  | Some (pre, fe, e) => Some (ev :: pre, fe, e)
+                  | None => None
+                  end
+        end
+    end.
+End Debug.
+
+Definition no_capture_failure : behaviour := fun _ _ _ => None.
+
 (* a concrete `compute`: force the cells left to right, stop at the first failure *)
 Fixpoint compute_seq (ts : list (res (list nat))) : res (list (list nat)) :=
   match ts with
@@ -242,6 +380,15 @@ Fixpoint compute_seq (ts : list (res (list nat))) : res (list (list nat)) :=
   | Raise e :: _ => Raise e
   | Ok d :: ts' => map_res (cons d) (compute_seq ts')
   end.
+
+(* dask.bag, as the deprecated pyxel.observation_mode uses it with dask enabled:
+   db.from_sequence(runs).map(f).compute() evaluates each partition (here: each run) as list(map(f, partition));
+   a StopIteration raised by f ends that map silently, so the run is DROPPED without an error; any other
+   exception of a cell surfaces *)
+Definition bag_drops (t : res (list nat)) : bool :=
+  match t with Raise e => is_stop_iteration (cls e) | Ok _ => false end.
+Definition compute_bag (ts : list (res (list nat))) : res (list (list nat)) :=
+  compute_seq (filter (fun t => negb (bag_drops t)) ts).
 
 (* ------------------------------------------------------------------------------------------ *)
 (* strings *)
@@ -268,6 +415,256 @@ Definition transport_model (e : exn) : exn :=
      notes := [] |}.
 
 (* ------------------------------------------------------------------------------------------ *)
+(* Round 2.  The constructs between a model's exception and the caller of an entry point *)
+
+Open Scope list_scope.
+
+(* the exception of the faulting call as it leaves ModelGroup.run *)
+Definition exn_of_fault (ev : event) (c : ecls) (p : string) : exn :=
+  annotate (raise_of c p) [note_of_event ev].
+
+(* a result or an exception in flight together with the exceptions it replaced (its __context__
+   chain, most recent first) *)
+Inductive xres (A : Type) : Type := XOk (a : A) | XRaise (e : exn) (ctx : list exn).
+Arguments XOk {A} a.
+Arguments XRaise {A} e ctx.
+
+Definition lift {A} (x : res A) : xres A :=
+  match x with Ok a => XOk a | Raise e => XRaise e [] end.
+Definition xmap {A B} (f : A -> B) (x : xres A) : xres B :=
+  match x with XOk a => XOk (f a) | XRaise e ctx => XRaise e ctx end.
+
+(* what an `except` clause names: nothing / BaseException | Exception | narrower classes *)
+Inductive scope := ScAll | ScException | ScSome.
+
+(* the shapes the translator reads from the source (translator/c09.py):
+   SExcept sc adds_note reraises   try: <inner> except <sc> as exc: [exc.add_note(..)]; raise   (reraises = the handler
+                                   ends in a bare `raise` and cannot be left by return/continue/break/raise X)
+   SFinally leaves                 try: <inner> finally: <clean-up> ; leaves = the clean-up contains return/break/continue
+   SWith suppresses                with cm: <inner> ; suppresses = cm.__exit__ may return True (contextlib.suppress, ...) *)
+Inductive shape :=
+| SExcept (sc : scope) (adds_note reraises : bool)
+| SFinally (leaves : bool)
+| SWith (suppresses : bool).
+
+(* what happens at run time at construct number i: the clean-up code of a `finally` block / the
+   __exit__ of a context manager may itself raise; the text of an added note; which classes a
+   narrow `except` clause names *)
+Record env := { env_cleanup : nat -> option exn; env_note : nat -> string; env_some : nat -> ecls -> bool }.
+
+Definition catches (ev : env) (i : nat) (sc : scope) (c : ecls) : bool :=
+  match sc with ScAll => true | ScException => is_exception c | ScSome => env_some ev i c end.
+
+(* Python's semantics of the three constructs around a computation whose outcome is x.  `dflt` is
+   what the enclosing function goes on with / returns once the exception is gone. *)
+Definition through {A} (dflt : A) (ev : env) (i : nat) (s : shape) (x : xres A) : xres A :=
+  match s with
+  | SExcept sc an rr =>
+      match x with
+      | XOk _ => x
+      | XRaise e ctx =>
+          if catches ev i sc (cls e) then
+            if rr then XRaise (if an then add_note e (env_note ev i) else e) ctx
+            else XOk dflt                      (* handled: execution continues after the try statement *)
+          else x
+      end
+  | SFinally leaves =>
+      match env_cleanup ev i with
+      | Some e' =>                             (* the clean-up raises: it replaces what was in flight, which becomes its context *)
+          match x with XOk _ => XRaise e' [] | XRaise e ctx => XRaise e' (e :: ctx) end
+      | None => if leaves then XOk dflt        (* return/break/continue in `finally` DISCARDS the exception in flight *)
+                else x
+      end
+  | SWith suppresses =>
+      match x with
+      | XOk _ => match env_cleanup ev i with Some e' => XRaise e' [] | None => x end
+      | XRaise e ctx =>
+          match env_cleanup ev i with
+          | Some e' => XRaise e' (e :: ctx)
+          | None => if suppresses then XOk dflt else x
+          end
+      end
+  end.
+
+(* constructs listed innermost first *)
+Fixpoint through_all {A} (dflt : A) (ev : env) (i : nat) (ss : list shape) (x : xres A) : xres A :=
+  match ss with
+  | [] => x
+  | s :: ss' => through_all dflt ev (S i) ss' (through dflt ev i s x)
+  end.
+
+Definition shape_propagates (s : shape) : bool :=
+  match s with SExcept _ _ rr => rr | SFinally leaves => negb leaves | SWith su => negb su end.
+
+(* e is e0, possibly with more notes *)
+Definition same_exc (e0 e : exn) : Prop :=
+  cls e = cls e0 /\ msg e = msg e0 /\ exists extra, notes e = (notes e0 ++ extra)%list.
+(* the caller still gets e0: as the exception itself, or in the chain of the exception that replaced it *)
+Definition kept {A} (e0 : exn) (x : xres A) : Prop :=
+  match x with
+  | XOk _ => False
+  | XRaise e ctx => same_exc e0 e \/ exists e1, In e1 ctx /\ same_exc e0 e1
+  end.
+
+Definition env_quiet : env :=
+  {| env_cleanup := fun _ => None; env_note := fun _ => ""; env_some := fun _ _ => false |}.
+
+(* ---- entry points ---- *)
+
+Inductive mode := MExposure | MObsSeq | MObsDask | MCalib.
+Inductive entry := ERunMode | ERunFile | ECli | EMethod | EDeprecated.
+
+(* the functions between the caller and the model function, outermost first; names as written by the
+   translator ("<Class>.<method>" or "<module>.<function>") *)
+Definition path_core : list string := ["Processor.run_pipeline"; "ModelGroup.run"; "ModelFunction.__call__"].
+Definition path_pipeline : list string := "exposure.run_pipeline" :: path_core.
+Definition path_pipeline_old : list string := "exposure._run_exposure_pipeline_deprecated" :: path_core.
+
+(* context managers written in pyxel itself (generator functions under @contextmanager) that a function
+   of a path enters around the next call: their own try/except/finally around the `yield` count too *)
+Definition cms_of (f : string) : list string :=
+  if String.eqb f "exposure.run_pipeline" || String.eqb f "exposure._run_exposure_pipeline_deprecated"
+  then ["randomize.set_random_seed"] else [].
+Definition expand (p : list string) : list string := flat_map (fun f => f :: cms_of f) p.
+
+Definition path_fitness : list string :=
+  ["ProblemSerializable.fitness"; "ModelFittingDataTree.fitness"] ++ path_pipeline.
+Definition path_fitness_old : list string :=
+  ["ProblemSerializable.fitness"; "ModelFitting.fitness"] ++ path_pipeline_old.
+
+Definition mode_paths (m : mode) : list (list string) :=
+  match m with
+  | MExposure => [ "Exposure.run_exposure" :: path_pipeline ]
+  | MObsSeq => [ ["Observation.run_pipelines"; "Observation._run_single_pipeline"] ++ path_pipeline ]
+  | MObsDask =>
+      [ ["Observation.run_pipelines"; "observation_dask.run_pipelines_with_dask";
+         "observation_dask._run_pipelines_array_to_datatree"] ++ path_pipeline;
+        ["Observation.run_pipelines"; "observation_dask.run_pipelines_with_dask";
+         "observation_dask._run_pipelines_tuple_to_array"; "observation_dask._run_pipelines_array_to_datatree"]
+          ++ path_pipeline ]
+  | MCalib =>
+      [ ["Calibration.run_calibration"; "ArchipelagoDataTree.__init__"; "ArchipelagoDataTree._build"; "DaskBFE.__call__"]
+          ++ path_fitness;
+        ["Calibration.run_calibration"; "ArchipelagoDataTree.run_evolve"; "DaskIsland.run_evolve"; "AlgoSerializable.evolve"]
+          ++ path_fitness;
+        ["Calibration.run_calibration"; "ArchipelagoDataTree.run_evolve";
+         "ModelFittingDataTree.apply_parameters_to_processors"; "ModelFittingDataTree._apply_parameters"] ++ path_pipeline ]
+  end.
+
+Definition mode_paths_old (m : mode) : list (list string) :=
+  match m with
+  | MExposure => [ ["run.exposure_mode"; "Exposure._run_exposure_deprecated"] ++ path_pipeline_old ]
+  | MObsSeq | MObsDask =>
+      map (fun f => ["run.observation_mode"; "deprecated._run_observation_deprecated"; f] ++ path_pipeline_old)
+          ["deprecated._apply_exposure_pipeline_product"; "deprecated._apply_exposure_pipeline_sequential";
+           "deprecated._apply_exposure_pipeline_custom"]
+  | MCalib =>
+      [ ["run.calibration_mode"; "Calibration._run_calibration_deprecated"; "MyArchipelago.__init__"; "MyArchipelago._build";
+         "DaskBFE.__call__"] ++ path_fitness_old;
+        ["run.calibration_mode"; "Calibration._run_calibration_deprecated"; "MyArchipelago.run_evolve"; "DaskIsland.run_evolve";
+         "AlgoSerializable.evolve"] ++ path_fitness_old ]
+  end.
+
+Definition run_mode_wrap (m : mode) : list string :=
+  match m with
+  | MExposure => ["run.run_mode"; "run._run_exposure_mode"]
+  | MCalib => ["run.run_mode"; "run._run_calibration_mode"]
+  | _ => ["run.run_mode"]
+  end.
+
+Definition entry_paths (ep : entry) (m : mode) : list (list string) :=
+  match ep with
+  | EMethod => mode_paths m
+  | ERunMode => map (app (run_mode_wrap m)) (mode_paths m)
+  | ERunFile => map (fun p => "run.run" :: run_mode_wrap m ++ p) (mode_paths m)
+  | ECli => map (fun p => "run.run_config" :: "run.run" :: run_mode_wrap m ++ p) (mode_paths m)
+  | EDeprecated => mode_paths_old m
+  end.
+
+Definition all_entries : list entry := [ERunMode; ERunFile; ECli; EMethod; EDeprecated].
+Definition all_modes : list mode := [MExposure; MObsSeq; MObsDask; MCalib].
+Definition all_entry_paths : list (list string) :=
+  flat_map (fun ep => flat_map (entry_paths ep) all_modes) all_entries.
+
+(* call edges that go through a library (pygmo calls the problem's fitness / the island's run_evolve /
+   the batch evaluator; dask calls the serialised method): not visible as a reference in the caller *)
+Definition lib_edges : list (string * string) :=
+  [ ("ArchipelagoDataTree._build", "DaskBFE.__call__"); ("MyArchipelago._build", "DaskBFE.__call__");
+    ("DaskBFE.__call__", "ProblemSerializable.fitness");
+    ("ProblemSerializable.fitness", "ModelFittingDataTree.fitness"); ("ProblemSerializable.fitness", "ModelFitting.fitness");
+    ("ArchipelagoDataTree.run_evolve", "DaskIsland.run_evolve"); ("MyArchipelago.run_evolve", "DaskIsland.run_evolve");
+    ("DaskIsland.run_evolve", "AlgoSerializable.evolve"); ("AlgoSerializable.evolve", "ProblemSerializable.fitness");
+    ("ModelGroup.run", "ModelFunction.__call__") ].
+
+Fixpoint lookup {B} (t : list (string * B)) (f : string) : option B :=
+  match t with
+  | [] => None
+  | (g, b) :: t' => if String.eqb f g then Some b else lookup t' f
+  end.
+
+Definition constructs_table := list (string * list shape).
+Definition refs_table := list (string * list string).
+
+Definition fn_ok (cons : constructs_table) (f : string) : bool :=
+  match lookup cons f with Some ss => forallb shape_propagates ss | None => false end.
+Definition is_lib (f g : string) : bool :=
+  existsb (fun fg => String.eqb f (fst fg) && String.eqb g (snd fg)) lib_edges.
+Definition references (refs : refs_table) (f g : string) : bool :=
+  match lookup refs f with Some gs => existsb (String.eqb g) gs | None => false end.
+Fixpoint edges_ok (refs : refs_table) (p : list string) : bool :=
+  match p with
+  | f :: ((g :: _) as rest) => (is_lib f g || references refs f g) && edges_ok refs rest
+  | _ => true
+  end.
+Definition path_ok (cons : constructs_table) (refs : refs_table) (p : list string) : bool :=
+  forallb (fn_ok cons) (expand p) && edges_ok refs p
+  && forallb (fun f => forallb (references refs f) (cms_of f)) p.
+(* every function on every path from every entry point exists in the source, refers to the next one,
+   and contains no construct that can drop an exception *)
+Definition source_ok (cons : constructs_table) (refs : refs_table) : bool :=
+  forallb (path_ok cons refs) all_entry_paths.
+
+(* all the constructs of the functions of a path, innermost function first *)
+Definition stack_of (cons : constructs_table) (p : list string) : list shape :=
+  flat_map (fun f => match lookup cons f with Some ss => ss | None => [] end) (rev (expand p)).
+
+(* the note-adding handler of a function catches every Exception and re-raises *)
+Definition note_handler_ok (cons : constructs_table) (f : string) : bool :=
+  match lookup cons f with
+  | Some ss => existsb (fun s => match s with
+                                 | SExcept ScAll true true | SExcept ScException true true => true
+                                 | _ => false end) ss
+  | None => false
+  end.
+
+(* ---- pyxel.run(file) and the `pyxel run` command, as coded ----
+   run():      try: tree = run_mode(..); if not outputs: return None; copy config;
+                    if "output" not in tree: return None; write the csv (except Exception: log; raise); return df
+               finally: logging.shutdown(); if outputs and folder: outputs.save_log_file(folder)
+   run_config: df = run(..); if df is None: raise RuntimeError("No output filename(s) generated. ...")  *)
+Definition no_output_msg : string := "No output filename(s) generated.".
+
+(* the constructs of run.run as they are in the unchanged tree; the regenerated table is compared
+   with this in Properties/C09.v *)
+Definition run_file_shapes : list shape := [SExcept ScException false true; SFinally false].
+
+Definition run_file {A} (ev : env) (shapes : list shape) (files : bool) (x : res A) : xres (option unit) :=
+  through_all None ev 0 shapes (xmap (fun _ => if files then Some tt else None) (lift x)).
+
+Definition cli_run {A} (ev : env) (shapes : list shape) (files : bool) (x : res A) : xres unit :=
+  match run_file ev shapes files x with
+  | XOk None => XRaise (raise_of RuntimeError no_output_msg) []
+  | XOk (Some _) => XOk tt
+  | XRaise e ctx => XRaise e ctx
+  end.
+
+(* the clean-up step of run()'s finally block fails (the log file cannot be moved) *)
+Definition cleanup_msg : string := "c09-cleanup-failed".
+Definition env_cleanup_fails : env :=
+  {| env_cleanup := fun _ => Some (raise_of OSError cleanup_msg); env_note := fun _ => "";
+     env_some := fun _ _ => false |}.
+
+(* ------------------------------------------------------------------------------------------ *)
 (* case files: inputs, the implementation's observation, comparison and specification *)
 
 Definition fault := (nat * nat * nat * ecls * string)%type.   (* run id, step, model key, class, payload *)
@@ -279,21 +676,27 @@ Definition beh_of (fs : list fault) : behaviour :=
     | None => None
     end.
 
-Inductive mode := MExposure | MObsSeq | MObsDask | MCalib.
-
 Inductive outcome :=
 | Returned
-| Raised (ocls : string) (omro : list string) (omsg : string) (onotes : list string) (ochain : nat)
+| Raised (ocls : string) (omro : list string) (omsg : string) (onotes : list string)
+         (ochain : list (string * string))          (* __cause__/__context__ chain: (class, message) *)
 | NotRun.
 
 Record c09_case := {
   c_mode : mode;
+  c_entry : entry;
+  c_outputs : bool;              (* the running mode has an `outputs` section / object *)
+  c_cleanup_fails : bool;        (* pyxel.outputs.save_log_file replaced by a function that raises OSError *)
+  c_chained : bool;              (* the model raises while it handles LookupError("inner-" ++ payload) *)
+  c_debug : bool;                (* exposure with debug=True *)
+  c_corrupt : list (nat * nat * nat);   (* (run, step, model key): the model returns but leaves a bucket that the
+                                           debug capture cannot read (used with c_debug only) *)
   c_pl : list group;
   c_nsteps : nat;
   c_runs : list run;             (* exposure: one run without parameters; calibration: unused *)
   c_faults : list fault;
-  c_pop : nat; c_evals : nat;    (* calibration: population size, evaluations made by all evolutions *)
-  o_call : outcome;              (* what pyxel.run_mode(...) did *)
+  c_pop : nat; c_evals : nat;    (* calibration: initial evaluations (all islands), evaluations made by all evolutions *)
+  o_call : outcome;              (* what the entry point did *)
   o_load : outcome;              (* what .load() on the returned tree did (dask / calibration) *)
   o_trace : list (nat * nat * string)   (* the probes' call log: run id, step, model name *)
 }.
@@ -312,6 +715,8 @@ Fixpoint list_eqb {A} (eqb : A -> A -> bool) (l1 l2 : list A) : bool :=
 
 Definition is_raised (o : outcome) : bool := match o with Raised _ _ _ _ _ => true | _ => false end.
 Definition is_returned (o : outcome) : bool := match o with Returned => true | _ => false end.
+Definition chain_of (o : outcome) : list (string * string) :=
+  match o with Raised _ _ _ _ ch => ch | _ => [] end.
 
 (* --- the specification (right-hand sides of the theorems), on the implementation's observation --- *)
 
@@ -347,6 +752,9 @@ Definition spec_text (s : string) (o : outcome) : bool :=
   | Raised _ _ om ns _ => substrb s om || existsb (substrb s) ns
   | _ => false
   end.
+(* the chain of the surfaced exception still holds the exception of class c with str(exc) *)
+Definition spec_in_chain (cn : string) (m : string) (o : outcome) : bool :=
+  existsb (fun cm => String.eqb (fst cm) cn && substrb m (snd cm)) (chain_of o).
 
 Definition run_by_id (runs : list run) (id : nat) : run :=
   match find (fun r => Nat.eqb (r_id r) id) runs with Some r => r | None => {| r_id := id; r_params := [] |} end.
@@ -355,28 +763,59 @@ Definition all_keys (runs : list run) : list string := flat_map (fun r => map fs
 
 (* violation codes: 0 none | 1 no exception (a result came back) | 2 class | 3 message | 4 group/model
    identity | 5 run parameters | 6 call log is not the prefix up to the fault | 7 dask: not surfaced
-   at the latest at load | 8 calibration: not surfaced *)
+   at the latest at load | 8 calibration: not surfaced | 9 clean-up failure: the original exception is
+   neither what surfaces nor in its chain | 10 the exception the model was handling left the chain
+   | 11 debug mode: the capture after a model call failed and the run did not raise *)
+(* identity is due for Exception subclasses only: KeyboardInterrupt & co. are not to be touched *)
 Definition check_exn (keys : list string) (ev : event) (c : ecls) (p : string) (o : outcome) : nat :=
   if negb (is_raised o) then 1
   else if negb (spec_class c o) then 2
   else if negb (spec_message c p o) then 3
-  else if negb (spec_identity keys ev o) then 4
+  else if is_exception c && negb (spec_identity keys ev o) then 4
   else 0.
+
+Definition cap_of (c : c09_case) : behaviour :=
+  fun r s k =>
+    if c_debug c && existsb (fun x => match x with (r', s', k') => Nat.eqb r' r && Nat.eqb s' s && Nat.eqb k' k end)
+                            (c_corrupt c)
+    then Some (ValueError, "capture") else None.
+
+(* sequential: exposure and observation, through any entry point *)
+Definition violation_seq (c : c09_case) : nat :=
+  let beh := beh_of (c_faults c) in
+  let keys := all_keys (c_runs c) in
+  let sched := sched_obs (c_pl c) (c_nsteps c) (c_runs c) in
+  match first_stop beh (cap_of c) sched with
+  | None => 0
+  | Some (pre, fe, _) =>
+      let o := o_call c in
+      match ev_fault beh fe with
+      | None =>
+          (* the debug capture after this call fails: the run must raise (whatever the capture raised) and stop *)
+          if negb (is_raised o) then 11
+          else if negb (list_eqb t3_eqb (o_trace c) (map proj_ev (pre ++ [fe])%list)) then 6
+          else 0
+      | Some (cl, p) =>
+      let k := check_exn keys fe cl p o in
+      if c_cleanup_fails c && negb (Nat.eqb k 0) then
+        (* the clean-up of pyxel.run's finally block raised on top: the original must be in the chain *)
+        if negb (is_raised o) then 1
+        else if spec_in_chain (cls_name cl) (py_str cl p) o then
+          (if negb (list_eqb t3_eqb (o_trace c) (map proj_ev (pre ++ [fe])%list)) then 6 else 0)
+        else 9
+      else if negb (Nat.eqb k 0) then k
+      else if is_exception cl && negb (spec_params (run_by_id (c_runs c) (ev_run fe)) o) then 5
+      else if negb (list_eqb t3_eqb (o_trace c) (map proj_ev (pre ++ [fe])%list)) then 6
+      else if c_chained c && negb (spec_in_chain "LookupError" (String.append "inner-" p) o) then 10
+      else 0
+      end
+  end.
 
 Definition violation_code (c : c09_case) : nat :=
   let beh := beh_of (c_faults c) in
   let keys := all_keys (c_runs c) in
   match c_mode c with
-  | MExposure | MObsSeq =>
-      match first_fault beh (sched_obs (c_pl c) (c_nsteps c) (c_runs c)) with
-      | None => 0
-      | Some (pre, fe, cl, p) =>
-          let k := check_exn keys fe cl p (o_call c) in
-          if negb (Nat.eqb k 0) then k
-          else if negb (spec_params (run_by_id (c_runs c) (ev_run fe)) (o_call c)) then 5
-          else if negb (list_eqb t3_eqb (o_trace c) (map proj_ev (pre ++ [fe])%list)) then 6
-          else 0
-      end
+  | MExposure | MObsSeq => violation_seq c
   | MObsDask =>
       (* the surfaced exception must be the first fault of one of the faulting runs *)
       let faulting := flat_map (fun r => match first_fault beh (sched_expo (r_id r) (c_pl c) (c_nsteps c)) with
@@ -397,11 +836,16 @@ Definition violation_code (c : c09_case) : nat :=
       match faulting with
       | [] => 0
       | (_, fe, cl, p) :: _ =>
-          if Nat.ltb (ev_run fe) (c_pop c) then check_exn keys fe cl p (o_call c)
+          if Nat.ltb (ev_run fe) (c_pop c) then
+            let k := check_exn keys fe cl p (o_call c) in
+            (* PEP 479 (see pep479): a StopIteration surfaces as RuntimeError with the original as its cause *)
+            if is_stop_iteration cl && is_raised (o_call c) && spec_in_chain (cls_name cl) (py_str cl p) (o_call c)
+            then 0 else k
           else if Nat.ltb (ev_run fe) (c_pop c + c_evals c) then
             if negb (is_raised (o_call c)) then 8
             else if negb (spec_text (py_str cl p) (o_call c)) then 3
-            else if negb (spec_text (ev_group fe) (o_call c) && spec_text (ev_model fe) (o_call c)) then 4
+            else if is_exception cl
+                    && negb (spec_text (ev_group fe) (o_call c) && spec_text (ev_model fe) (o_call c)) then 4
             else 0
           else
             (* lazily recomputed champion data: at the latest at load *)
@@ -413,43 +857,101 @@ Definition violation_code (c : c09_case) : nat :=
 
 (* --- model vs. implementation on the property-relevant observables --- *)
 
-Definition exn_agrees (keys : list string) (e : exn) (o : outcome) : bool :=
+Definition exn_agrees (e : exn) (o : outcome) : bool :=
   match o with
-  | Raised oc _ om ns _ =>
-      String.eqb oc (cls_name (cls e)) && String.eqb om (msg e)
+  | Raised oc _ om ns _ => String.eqb oc (cls_name (cls e)) && String.eqb om (msg e)
   | _ => false
   end.
 
+(* what the entry point makes of the running mode's outcome x (no fault: `files` says whether
+   pyxel.run finds output file names to report) *)
+Definition entry_outcome {A} (c : c09_case) (x : res A) : xres unit :=
+  let ev := if c_cleanup_fails c && c_outputs c then env_cleanup_fails else env_quiet in
+  let files := c_outputs c && match c_mode c with MCalib => false | _ => true end in
+  match c_entry c with
+  | ERunFile => xmap (fun _ => tt) (run_file ev run_file_shapes files x)
+  | ECli => cli_run ev run_file_shapes files x
+  | _ => xmap (fun _ => tt) (lift x)
+  end.
+
+(* post-processing of pyxel.run that is outside the model (copying the configuration file, the table
+   of output file names): its failure on a fault-free sequential observation with outputs is not a
+   disagreement about failure propagation *)
+Definition post_outside_model (c : c09_case) : bool :=
+  match c_entry c, c_mode c with
+  | ERunFile, MObsSeq | ECli, MObsSeq => c_outputs c
+  | _, _ => false
+  end.
+
+Definition xres_agrees (c : c09_case) (x : xres unit) (o : outcome) : bool :=
+  match x with
+  | XOk _ => is_returned o || (post_outside_model c && is_raised o)
+  | XRaise e _ => exn_agrees e o
+                  || (String.eqb (msg e) no_output_msg
+                      && match o with Raised oc _ om _ _ => String.eqb oc "RuntimeError" && substrb no_output_msg om
+                                 | _ => false end)
+  end.
+
+Definition last_of {A} (l : list A) : list A := match rev l with [] => [] | a :: _ => [a] end.
+
 Definition case_mismatch (c : c09_case) : bool :=
   let beh := beh_of (c_faults c) in
-  let keys := all_keys (c_runs c) in
   match c_mode c with
   | MExposure =>
-      let '(o, tr) := exposure beh 0 (c_pl c) (c_nsteps c) in
+      let '(o, tr) := exposure_dbg beh (cap_of c) 0 (c_pl c) (c_nsteps c) in
       negb (list_eqb t3_eqb (o_trace c) (map proj_ev tr))
       || match o with
-         | Ok _ => negb (is_returned (o_call c))
-         | Raise e => negb (exn_agrees keys e (o_call c))
+         | Raise _ =>
+             if existsb (fun ev => match ev_fault beh ev with None => true | Some _ => false end) (last_of tr)
+             then negb (is_raised (o_call c))     (* stopped by the capture: class and text are xarray's, not compared *)
+             else negb (xres_agrees c (entry_outcome c o) (o_call c))
+         | Ok _ => negb (xres_agrees c (entry_outcome c o) (o_call c))
          end
   | MObsSeq =>
-      let '(o, tr) := obs_seq beh (c_pl c) (c_nsteps c) (c_runs c) in
+      let '(o, tr) := match c_entry c with
+                      | EDeprecated => obs_seq_old beh (c_pl c) (c_nsteps c) (c_runs c)
+                      | _ => obs_seq beh (c_pl c) (c_nsteps c) (c_runs c)
+                      end in
       negb (list_eqb t3_eqb (o_trace c) (map proj_ev tr))
-      || match o with
-         | Ok _ => negb (is_returned (o_call c))
-         | Raise e => negb (exn_agrees keys e (o_call c))
-         end
+      || negb (xres_agrees c (entry_outcome c o) (o_call c))
   | MObsDask =>
+      match c_entry c with
+      | EDeprecated =>
+          (* dask.bag: everything is computed inside pyxel.observation_mode *)
+          let cells := map (cell beh (c_pl c) (c_nsteps c)) (c_runs c) in
+          if existsb bag_drops cells then
+            (* a run was dropped silently (known finding): what the merge of the remaining datasets does
+               is outside the model; only "the StopIteration itself surfaced" would contradict it *)
+            match o_call c with Raised oc _ _ _ _ => String.eqb oc "StopIteration" | _ => false end
+          else
+            match compute_bag cells with
+            | Ok _ => negb (is_returned (o_call c))
+            | Raise _ => negb (is_raised (o_call c))
+            end
+      | _ =>
       (* which run pyxel executes eagerly (the first of ITS ordering of the parameter space) is not
          property-relevant: a modelled failure must show at the call or at load, data otherwise *)
       match obs_par beh compute_seq (c_pl c) (c_nsteps c) (c_runs c) with
-      | ParLoaded (Ok _) => negb (is_returned (o_call c) && is_returned (o_load c))
+      | ParLoaded (Ok _) =>
+          match c_entry c with
+          | ERunMode | EMethod => negb (is_returned (o_call c) && is_returned (o_load c))
+          | _ => negb (xres_agrees c (entry_outcome c (Ok tt)) (o_call c))
+          end
       | _ => negb (is_raised (o_call c) || (is_returned (o_call c) && is_raised (o_load c)))
+      end
       end
   | MCalib =>
       let init := seq 0 (c_pop c) in
       let gens := [seq (c_pop c) (c_evals c)] in
+      (* the evaluations after the last evolution: the champions' data, recomputed lazily (at .load()) by the
+         new path, inside the call by the deprecated pyxel.calibration_mode(compute_and_save=True) *)
+      let lazy := filter (fun r => Nat.leb (c_pop c + c_evals c) (r_id r)) (c_runs c) in
       match calib beh compute_seq transport_model (c_pl c) (c_nsteps c) init gens with
-      | Ok _ => negb (is_returned (o_call c))
+      | Ok _ =>
+          match c_entry c, compute_seq (map (cell beh (c_pl c) (c_nsteps c)) lazy) with
+          | EDeprecated, Raise _ => negb (is_raised (o_call c))
+          | _, _ => negb (xres_agrees c (entry_outcome c (Ok tt)) (o_call c))
+          end
       | Raise _ => negb (is_raised (o_call c))
       end
   end.
@@ -471,8 +973,8 @@ Fixpoint violations_from (cs : list c09_case) (i : nat) : list nat :=
 Definition violations (cs : list c09_case) : list nat := violations_from cs 0.
 
 (* ------------------------------------------------------------------------------------------ *)
-(* the table regenerated from the source (translator/c09.py): the `except` handlers on the path of a
-   model's exception: (function, adds a note, ends in a bare `raise`) *)
+(* the round-1 table regenerated from the source (translator/c09.py): the `except` handlers on the path
+   of a model's exception: (function, adds a note, ends in a bare `raise`) *)
 Definition handler_row := (string * bool * bool)%type.
 Definition handlers_reraise (t : list handler_row) : bool :=
   forallb (fun h => match h with (_, _, r) => r end) t.
